@@ -47,7 +47,7 @@ impl Amt {
     }
 }
 
-fn amount_strategy() -> BoxedStrategy<Amt> {
+pub fn amount_strategy() -> BoxedStrategy<Amt> {
     let uniform = proptest::collection::vec(any::<u8>(), 32).prop_map(|v| BigUint::from_bytes_be(&v));
     // any bit length
     let by_len = (0usize..=256, proptest::collection::vec(any::<u8>(), 32)).prop_map(|(bits, v)| {
@@ -109,7 +109,7 @@ fn decimal_value_e18(s: &str) -> Option<(BigUint, usize)> {
     Some((ip * e18() + fp * BigUint::from(10u32).pow((18 - f.len()) as u32), f.len()))
 }
 
-fn check_display(a: &Amt, ctx: &mut Ctx) {
+pub fn check_display(a: &Amt, ctx: &mut Ctx) {
     let v = a.get();
     let b = big(&v);
     let rem = &b % e18();
@@ -170,7 +170,7 @@ fn digits(max_len: usize) -> BoxedStrategy<String> {
     .boxed()
 }
 
-fn text_strategy() -> BoxedStrategy<Text> {
+pub fn text_strategy() -> BoxedStrategy<Text> {
     // canonical grammar: int [ "." frac ]
     let ints = prop_oneof![
         3 => digits(12),
@@ -286,7 +286,7 @@ fn classify(s: &str) -> Expect {
     Expect::Value(val)
 }
 
-fn check_parse(t: &Text, ctx: &mut Ctx) {
+pub fn check_parse(t: &Text, ctx: &mut Ctx) {
     let s = &t.0;
     let Some(res) = ctx.no_panic("AttoTokens::from_str", || AttoTokens::from_str(s)) else { return };
     let got = res.as_ref().ok().map(|a| big(&a.as_atto()));
@@ -329,7 +329,7 @@ fn check_parse(t: &Text, ctx: &mut Ctx) {
 #[derive(Clone, Debug, Serialize, Deserialize)]
 pub struct Pair(pub Amt, pub Amt);
 
-fn pair_strategy() -> BoxedStrategy<Pair> {
+pub fn pair_strategy() -> BoxedStrategy<Pair> {
     let a = amount_strategy();
     let b = amount_strategy();
     let complement = (amount_strategy(), 0u32..5).prop_map(|(a, d)| {
@@ -346,7 +346,7 @@ fn pair_strategy() -> BoxedStrategy<Pair> {
     prop_oneof![3 => (a, b).prop_map(|(a, b)| Pair(a, b)), 2 => complement, 2 => near].boxed()
 }
 
-fn check_arith(p: &Pair, ctx: &mut Ctx) {
+pub fn check_arith(p: &Pair, ctx: &mut Ctx) {
     let (a, b) = (p.0.get(), p.1.get());
     let (ba, bb) = (big(&a), big(&b));
     let (ta, tb) = (AttoTokens::from_atto(a), AttoTokens::from_atto(b));
@@ -393,5 +393,8 @@ pub fn run(cfg: RunCfg) {
         "non-trivial: a+b crosses or touches MAX, or a<=b; distinct by pair",
         pair_strategy, check_arith
     );
+    vh_core::fuzz_section!(rep, "parse", text_strategy, check_parse, "sec_protocol", "protocol", 1_000_000, 150, 6);
+    vh_core::fuzz_section!(rep, "arith", pair_strategy, check_arith, "sec_protocol", "protocol", 500_000, 90, 4);
+    vh_core::fuzz_section!(rep, "display", amount_strategy, check_display, "sec_protocol", "protocol", 500_000, 90, 4);
     rep.finish();
 }
